@@ -493,6 +493,13 @@ func (e *chainEngine) doOp(n *cnode, op chainOp) *cnode {
 		}
 		executed[t] = true
 	}
+	// a command whose (1 s) timeout expired before its shell wrote the first trace line (loaded machine) was attempted
+	// all the same: grog names it as failed with a timeout
+	for _, t := range chainTargets {
+		if !executed[t] && n.st.Marks["fail-y-timeout"] && strings.Contains(rr.Output, "Target //p:"+t+" failed: timeout") {
+			executed[t] = true
+		}
+	}
 	if e.lockstep != nil && op.Arg != "slow-taint-clear" {
 		ex := make([]string, 0, len(executed))
 		for t := range executed {
